@@ -4,6 +4,10 @@
 //!   `cK` (look at chunk(), take at most K bytes, advance) / `aK` (raw advance(K)) steps, then drained.
 //!   ctor: st:<ty> | uc:<id=val;..> | uw:<sid> | ue | ud | bw:<sid> | fd:<chunk.chunk> | fh:<hex> | fc:<id> | fg:<id>
 //!         | fm:<id> | fs:<id=val;..> | fw:<sid> | fr | p:<ty>:<frame ctor>
+//!         | fp:<id>:<hex> (Frame::PushPromise: its fields are private, the only way to one is the public Frame::decode;
+//!           h3 never sends it - `wbx` only, see C14_push_promise_observation)
+//! `si <id=val;..>`: `Settings::insert` entry by entry (`o` accepted / `e` refused), then the SETTINGS frame built from what
+//!   was accepted, drained through WriteBuf.
 //! `wr <s|c> <cfg> <budget> <prog>`: an API program on the REAL server / client over SimQuic.
 //!   cfg: g<0|1>.m<max_field_section_size>.x<0|1>.d<0|1>[.w<0|1>.n<max_webtransport_sessions>]
 //!   budget: `-` (writes accepted whole) or `<initial per-stream budget>:<k1>.<k2>...` (whenever a writer is blocked,
@@ -92,6 +96,21 @@ fn frame(s: &str) -> Frame<ChunkBuf> {
         "fs" => Frame::Settings(settings(a)),
         "fw" => Frame::WebTransportStream(SessionId::try_from(n()).unwrap()),
         "fr" => Frame::Grease,
+        "fp" => {
+            let i = a.find(':').unwrap();
+            let id = VarInt::from_u64(a[..i].parse().unwrap()).unwrap();
+            let e = unhex(&a[i + 1..]);
+            let mut raw: Vec<u8> = Vec::new();
+            VarInt::from_u32(5).encode(&mut raw);
+            VarInt::from_u64((id.size() + e.len()) as u64).unwrap().encode(&mut raw);
+            id.encode(&mut raw);
+            raw.extend_from_slice(&e);
+            let mut b = Bytes::from(raw);
+            match Frame::decode(&mut b) {
+                Ok(Frame::PushPromise(p)) => Frame::PushPromise(p),
+                _ => panic!("driver: push promise {}", s),
+            }
+        }
         _ => panic!("driver: frame ctor {}", s),
     }
 }
@@ -116,8 +135,32 @@ fn build(s: &str) -> WriteBuf<ChunkBuf> {
     }
 }
 
+fn run_si(ents: &str) -> String {
+    let mut st = Settings::default();
+    let mut res = String::new();
+    if ents != "-" {
+        for e in ents.split(';') {
+            let mut it = e.splitn(2, '=');
+            let id: u64 = it.next().unwrap().parse().unwrap();
+            let v: u64 = it.next().unwrap().parse().unwrap();
+            res.push(if st.insert(SettingId(id), v).is_ok() { 'o' } else { 'e' });
+        }
+    }
+    if res.is_empty() {
+        res.push('-');
+    }
+    let t = std::panic::catch_unwind(std::panic::AssertUnwindSafe(|| {
+        consume(WriteBuf::<ChunkBuf>::from(Frame::Settings(st)), "-")
+    }))
+    .unwrap_or_else(|_| "panic".to_string());
+    format!("ok {} {}", res, t)
+}
+
 fn run_wb(ctor: &str, steps: &str) -> String {
-    let mut w = build(ctor);
+    consume(build(ctor), steps)
+}
+
+fn consume(mut w: WriteBuf<ChunkBuf>, steps: &str) -> String {
     let mut out = String::new();
     if steps != "-" {
         for st in steps.split(',') {
@@ -669,7 +712,12 @@ fn run_wr(role: &str, cfg: &str, budget: &str, prog: &str) -> String {
     }
     let res = if hang { "hang".to_string() } else { ex.result(t).cloned().unwrap_or_default() };
     let g = w.lock().unwrap();
-    let mut out = format!("ok res={}", if res.is_empty() { "-" } else { &res });
+    // the connection could not be built (a Config that has no SETTINGS encoding): `build-err` and whatever is on the wire
+    let mut out = if res.starts_with("build-err") {
+        "build-err".to_string()
+    } else {
+        format!("ok res={}", if res.is_empty() { "-" } else { &res })
+    };
     for (id, s) in g.streams.iter() {
         let uni = id & 2 != 0;
         if uni && !s.local {
@@ -683,6 +731,7 @@ fn run_wr(role: &str, cfg: &str, budget: &str, prog: &str) -> String {
 fn main() {
     run_lines(|ws| match ws {
         ["wb", ctor, steps] | ["wbx", ctor, steps] => run_wb(ctor, steps),
+        ["si", ents] => run_si(ents),
         ["wr", role, cfg, budget, prog] => run_wr(role, cfg, budget, prog),
         _ => "driver-error unknown-case".into(),
     });
